@@ -60,7 +60,11 @@ namespace RecInt
         ruint(const ruint<K-1>& rl) : Low(rl) {}
         ruint(const double b) : Low((b < 0)? -b : b) { if (b < 0) *this = -*this; }
         template <typename T, __RECINT_IS_UNSIGNED(T, int) = 0> ruint(const T b) : Low(b) {}
-        template <typename T, __RECINT_IS_SIGNED(T, int) = 0>   ruint(const T b) : Low((b < 0)? -b : b)
+        template <typename T, typename std::enable_if<std::is_signed<T>::value && std::is_integral<T>::value, int>::type = 0>
+        ruint(const T b) : Low((b < 0)? -limb(b) : limb(b)) // negate as a limb: -b overflows for the most negative value
+        { if (b < 0) *this = -*this; }
+        template <typename T, typename std::enable_if<std::is_floating_point<T>::value, int>::type = 0>
+        ruint(const T b) : Low((b < 0)? -b : b)
         { if (b < 0) *this = -*this; }
         template <typename T, __RECINT_IS_NOT_FUNDAMENTAL(T, int) = 0> ruint(const T& b)
         { *this = b.operator ruint<K>(); } // Fix for Givaro::Integer
